@@ -298,3 +298,39 @@ PROPS["C10"] = {
             "rejected-with-reason, or at a capacity boundary, or containing a boundary character; distinct by (entry point, parameters, content).",
     "assumptions": COMMON_ASSUMPTIONS,
 }
+
+PROPS["C15"] = {
+    "technique": "stateful property testing over call histories with a differential oracle: every call's fingerprint (pixels + accessors) in a long-lived process and as part of the same history in a fresh process must equal the fingerprint of that call executed alone in a freshly started process; aliasing probes mutate the caller's buffer afterwards",
+    "level_text": "exploration: rapid-generated histories of 1..40 encoder calls across all families (weighted to QR/DataMatrix calls whose Reed-Solomon generator degrees arrive in ascending, descending, random order) are executed in the test process (twice each) and in one fresh helper process, and each call is also executed alone in its own fresh process; all fingerprints must agree; inputs are compared with a private copy after the call; for the []byte entry point (Aztec) the buffer is overwritten after the call and Content()/pixels must not move",
+    "level_note": "trusted: SHA-256 fingerprint of bounds, all pixels, colour model/scheme, Content, Metadata, CheckSum; the helper binary cmd/oneshot (one process per call); fresh-process comparison is sampled, not exhaustive",
+    "oneshot": True,
+    "parts": [
+        {"name": "regression", "kind": "plain", "test": "TestReplayDir"},
+        {"name": "orders", "kind": "plain", "test": "TestC15Orders"},
+        {"name": "rapid", "kind": "rapid", "test": "TestC15Rapid", "checks": {"quick": 640, "thorough": 24000}, "shrinktime": "60s"},
+    ],
+    "universes": {"families": list(FAMS)},
+    "rule": "case = history of 1..12 (10%: 13..40) encoder calls: pool of one QR/DataMatrix call per distinct Reed-Solomon degree (QR 7..30 check codewords, DataMatrix "
+            "5..68) ordered ascending/descending/randomly, mixed with calls from all 12 entry-point families (plain and coloured), sometimes repeating the first call "
+            "at the end; orders = the whole pool ascending, descending and in three fixed permutations. Non-trivial = history with >= 2 distinct RS degrees or an "
+            "Aztec aliasing probe; distinct by the whole history.",
+    "assumptions": COMMON_ASSUMPTIONS + ["a freshly exec'ed helper process is a faithful 'fresh process'"],
+}
+
+PROPS["C16"] = {
+    "technique": "randomised concurrent stress under the Go race detector (happens-before detection): generated workloads of 2..64 goroutines x GOMAXPROCS 1/2/4/16, in-process and as the very first calls of fresh race-instrumented processes, with a differential oracle (fingerprints equal the sequential results), deadlock watchdog and goroutine-leak check",
+    "level_text": "exploration; schedules are not owned, so this is the weakest claim: the race detector reports unsynchronised accesses whenever the two accesses happen in one run (no lucky timing needed), result fingerprints are compared with sequential references, a watchdog catches deadlocks and runtime.NumGoroutine() must return to its pre-workload value; cold-start workloads release all calls of a fresh process through a barrier so that the lazily grown Reed-Solomon caches are first touched concurrently",
+    "level_note": "trusted: Go race detector, the fingerprint, the helper binary; not covered: bugs that need one specific interleaving which neither produces a happens-before race nor a wrong result in the explored runs",
+    "race": True, "oneshot": True, "race_is_violation": True,
+    "parts": [
+        {"name": "regression", "kind": "plain", "test": "TestReplayDir"},
+        {"name": "cold-start", "kind": "plain", "test": "TestC16ColdStart"},
+        {"name": "rapid", "kind": "rapid", "test": "TestC16Rapid", "checks": {"quick": 480, "thorough": 16000}, "shrinktime": "60s"},
+    ],
+    "universes": {"families": list(FAMS)},
+    "rule": "case = workload of 2/3/4/8/16/32/64 goroutines released by a barrier, each performing one encoder call (pool of distinct RS degrees, QR error paths that "
+            "start producer goroutines, calls of all families) 1..3 times, optionally followed by Scale, under GOMAXPROCS 1/2/4/16; 25% of the workloads run as the "
+            "first calls of a fresh race-instrumented process; cold-start part: the whole RS-degree pool and the error-path calls as simultaneous first calls for "
+            "each GOMAXPROCS value, rotated. Every case is non-trivial (>= 2 concurrent calls); distinct by the whole workload.",
+    "assumptions": COMMON_ASSUMPTIONS,
+}
